@@ -32,6 +32,7 @@ func init() {
 		"cli":      func(e *Env, raw json.RawMessage) { c := decode[c09Case](raw); c09Run(e, &c) },
 		"text-lib": func(e *Env, raw json.RawMessage) { c09TextLib(e, decode[textCase](raw).Text) },
 		"yaml-lib": func(e *Env, raw json.RawMessage) { c09YAMLLib(e, decode[textCase](raw).Text) },
+		"out":      func(e *Env, raw json.RawMessage) { c09OutEval(e, decode[c09OutCase](raw)) },
 	}})
 }
 
@@ -146,6 +147,91 @@ func c09Run(e *Env, c *c09Case) {
 			fail("C09/no-diagnostic/"+k2, "the downstream stage fails without a diagnostic")
 		}
 	}
+}
+
+// c09OutputPaths: the output destination is a flag value / part of the environment too. Every
+// data-producing command with a destination that cannot take the result must fail in the
+// documented shape (it has a non-empty result to deliver, so success would be a lie).
+type c09OutCase struct {
+	Args  []string `json:"args"`
+	Stdin string   `json:"stdin"`
+	Dest  string   `json:"destination"`
+	Shell string   `json:"shell,omitempty"`
+}
+
+func c09OutEval(e *Env, c c09OutCase) {
+	e.R.Eval(1)
+	dir := filepath.Join(e.Scratch, fmt.Sprintf("c09-%d", atomic.AddInt64(&c09Dir, 1)))
+	if err := os.MkdirAll(dir, 0o755); err != nil {
+		panic(err)
+	}
+	defer os.RemoveAll(dir)
+	args := append([]string{}, c.Args...)
+	o := cli.Opt{Stdin: []byte(c.Stdin), Dir: dir}
+	switch c.Dest {
+	case "stdout-full":
+		o.Redirect = ">/dev/full"
+	case "o-full":
+		args = append(args, "-o", "/dev/full")
+	case "o-missing-dir":
+		args = append(args, "-o", filepath.Join(dir, "no", "such", "dir", "out"))
+	case "o-directory":
+		args = append(args, "-o", dir)
+	case "o-read-only":
+		ro := writeTemp(dir, "ro.out", "old")
+		os.Chmod(ro, 0o444)
+		args = append(args, "-o", ro)
+	}
+	c.Shell = fmt.Sprintf("printf '%%s' %s | crd %s %s", shQuote(c.Stdin), strings.Join(args, " "), o.Redirect)
+	key := cmdKey(c.Args)
+	fail := func(class, msg string) {
+		e.R.Fail(ev.Fail{Class: class, Msg: fmt.Sprintf("crd %s with destination %s: %s", strings.Join(c.Args, " "), c.Dest, msg), Kind: "out", Case: c})
+	}
+	r := cli.Run(o, args...)
+	switch {
+	case r.TimedOut:
+		fail("C09/hang/"+key, "does not terminate")
+	case r.Crashed():
+		fail("C09/crash/"+key+"/"+c09CrashKind(r.Stderr), "crashes: "+firstLineWith(r.Stderr, "panic", "fatal error", "signal"))
+	case r.Exit == 0 && c.Dest == "o-read-only" && os.Geteuid() == 0:
+		e.R.Outcome("ok: root writes read-only files")
+	case r.Exit == 0:
+		fail("C09/failure-not-signalled/"+key, "the result cannot be delivered, yet the exit status is 0")
+	case len(r.Stderr) == 0:
+		fail("C09/no-diagnostic/"+key, fmt.Sprintf("exit status %d without a diagnostic on stderr", r.Exit))
+	default:
+		e.R.Outcome("fail:" + key)
+	}
+}
+
+func c09OutputPaths(e *Env, text, degText string) {
+	type cmd struct {
+		args  []string
+		stdin string
+	}
+	cmds := []cmd{
+		{[]string{"text", "parse"}, text}, {[]string{"text", "conv", "syllable"}, text}, {[]string{"text", "conv", "degree"}, degText},
+		{[]string{"write"}, c09ValidDoc}, {[]string{"write", "event"}, c09ValidDoc}, {[]string{"write", "parse"}, c09ValidDoc}, {[]string{"write", "conv", "-c", "cmt"}, c09ValidDoc},
+		{[]string{"info", "key", "list"}, ""}, {[]string{"info", "key", "describe", "--key", "Eb"}, ""}, {[]string{"info", "key", "conv", "--key", "C", "-c", "d"}, ""},
+		{[]string{"info", "attr", "list"}, ""}, {[]string{"info", "attr", "describe", "-t", "Minor7", "-r", "C"}, ""},
+		{[]string{"info", "chord", "list"}, ""}, {[]string{"info", "chord", "describe", "-t", "Cm7"}, ""}, {[]string{"gen", "attr", "-d", "10"}, ""},
+		// results larger than any buffer in between
+		{[]string{"write", "event"}, strings.Repeat(c09ValidDoc, 400)}, {[]string{"gen", "attr", "-d", "300"}, ""}, {[]string{"text", "conv", "syllable"}, strings.Repeat(text+" ", 300)},
+	}
+	// (a closed stdout is no such destination: the Go runtime opens /dev/null on a closed descriptor 0-2)
+	dests := []string{"stdout-full", "o-full", "o-missing-dir", "o-directory", "o-read-only"}
+	var cases []c09OutCase
+	for _, c := range cmds {
+		for _, d := range dests {
+			cases = append(cases, c09OutCase{Args: c.args, Stdin: c.stdin, Dest: d})
+		}
+	}
+	mc.ParFor(len(cases), func(i int) {
+		c09OutEval(e, cases[i])
+		e.R.Trace(1)
+		e.R.NonTrivialN(1)
+	})
+	e.R.AddPart(ev.Part{Name: "output-destinations-cli", Enumerated: fmt.Sprintf("real binary: %d valid command lines (every data-producing subcommand, three with results of 100 kB and more) x destination {stdout on a full device, -o on a full device, -o in a missing directory, -o naming a directory, -o naming a read-only file}: non-zero exit status with a diagnostic, never a silent success", len(cmds)), Executions: int64(len(cases)), Exhaustive: true})
 }
 
 // goyaccDebugOnly reports whether every line is a goyacc debug line ("state-N saw TOKEN", "error recovery ...").
@@ -271,7 +357,7 @@ func c09Mutants(seed string, alphabet []string) []string {
 func runC09(e *Env) {
 	e.R.Rule = "bounded-exhaustive short inputs (chord text and instances YAML) on every command that reads them, all one-deviation byte mutants (truncation, deletion, replacement and insertion by each of 20 alphabet bytes at every position) of valid chord texts, instance documents and dictionary files, the complete product of the nonsense table (value x channel {text metadata, YAML field, flag} x command), a flag-value table, through the real binary; oracle: terminates, no panic/fatal error/signal, exit 0 or (exit != 0, diagnostic on stderr, nothing on stdout, -o file empty or absent); nonsense must make the first interpreting stage fail and never reach a MIDI file. distinct = (command, input); non-trivial = every run (each is judged by the failure-shape oracle)"
 	e.R.Assume("hang watchdog: 10 s per process, a timeout is re-run 3x at 30 s and only a reproducible timeout counts; in-process non-termination is detected without a clock (256 polls of the exhausted input)")
-	e.R.Exclude("inputs longer than the stated bounds; values the SMF format cannot state (tempo < 4 bpm, meter denominators that are no power of two, numerators > 255); out-of-range pitches (gomidi clamps them)")
+	e.R.Exclude("inputs longer than the stated bounds; out-of-range pitches (gomidi clamps them; C01 is stated for chords inside the MIDI range); values the SMF format cannot state (tempo < 4 bpm, odd meters, over-long delays) are judged by C07/C02/C08, which demand a refusal")
 	var cases []c09Case
 	add := func(label, expect, stdin string, args ...string) {
 		cases = append(cases, c09Case{Label: label, Args: args, Stdin: stdin, Expect: expect})
@@ -629,6 +715,7 @@ func runC09(e *Env) {
 	add("valid", "ok", textSeeds[1].text, "text", "parse")
 	cases = append(cases, c09Case{Label: "valid", Args: []string{"write", "--chord", "{DIR}/c.yml", "--attr", "{DIR}/a.yml"}, Stdin: doc1, Files: map[string]string{"c.yml": c09Chords, "a.yml": c09Attrs}, Expect: "ok"})
 	nFlags := len(cases) - nShort - nMut - nTable
+	c09OutputPaths(e, textSeeds[0].text, textSeeds[1].text)
 
 	mc.ParFor(len(cases), func(i int) {
 		c := cases[i]
